@@ -75,7 +75,11 @@ func run(args []string) int {
 	trace := fs.Bool("trace", false, "trace instructions")
 	verbose := fs.Bool("v", false, "verbose")
 	unwind := fs.Int("unwind", 40, "symbolic decisions per site per path")
+	why := fs.Bool("why", false, "print a histogram of fork reasons")
 	fs.Parse(args)
+	if *why {
+		sx.WhyHist = map[string]int{}
+	}
 	if *prop == "" {
 		fmt.Fprintln(os.Stderr, "--property required")
 		return 2
@@ -134,6 +138,22 @@ func run(args []string) int {
 		}
 		hr := ex.Run(fn)
 		rs.Add(P, fn, hr)
+	}
+	if sx.WhyHist != nil {
+		type kv struct {
+			k string
+			v int
+		}
+		var l []kv
+		for k, v := range sx.WhyHist {
+			l = append(l, kv{k, v})
+		}
+		sort.Slice(l, func(i, j int) bool { return l[i].v > l[j].v })
+		for i, e := range l {
+			if i < 25 {
+				fmt.Printf("WHY %6d %s\n", e.v, e.k)
+			}
+		}
 	}
 	code := rs.Finish(time.Since(t0))
 	if *evid != "" {
